@@ -76,6 +76,8 @@ func (m *c02Mon) Observe(pre, post *cdpSnap, e *cdpEvent) {
 	}
 	postPrin := m.principal(post)
 	ctx := m.st.context(pre, post)
+	m.rec.Count("esm_hand_backs_v2", int64(m.st.esmHandBackV2))
+	m.rec.Count("esm_hand_backs_v2_of_auctions_with_bids", int64(m.st.esmHandBackPaidV2))
 	for d := range m.debt {
 		m.rec.Eval(1)
 		sup := post.Supply[d]
@@ -90,6 +92,12 @@ func (m *c02Mon) Observe(pre, post *cdpSnap, e *cdpEvent) {
 		}
 		if !m.hadLiq && gap.Sign() != 0 && gap.Cmp(old) != 0 {
 			m.rec.Violate(fmt.Sprintf("C02/supply-not-equal-principal-without-liquidations/%s%s", opTag(e), ctx), fmt.Sprintf("no liquidation so far but supply of %s differs from recorded principal by %s", d, gap),
+				map[string]interface{}{"denom": d, "supply": sup.String(), "recorded_principal": postPrin[d].String(), "event": e.String()})
+		}
+		if m.st.esmHandBackV2 > 0 && m.lastGap[d] != nil && gap.Cmp(old) > 0 {
+			// an emergency hand-back re-opens the seized vault: what it takes off the books (awaiting-auction principal
+			// less the re-opened vault's debt) must be covered by what it burns, whatever slack earlier events left
+			m.rec.Violate("C02/esm-hand-back-v2/retired-more-principal-than-burned/"+opTag(e), fmt.Sprintf("supply minus recorded principal of %s went from %s to %s in a block that handed a seized vault back", d, old, gap),
 				map[string]interface{}{"denom": d, "supply": sup.String(), "recorded_principal": postPrin[d].String(), "event": e.String()})
 		}
 		m.lastGap[d] = gap
